@@ -50,10 +50,16 @@ func (f Frame) times() int {
 // once; step: as deferred, then increments of Step; early (client only): 1 MiB
 // of stream credit right after the HEADERS that open the stream, i.e. before the
 // relay has forwarded anything on it toward the client, and nothing per stream later).
+//
+// Mode none: never any WINDOW_UPDATE; the announced window (65 535) covers all a peer
+// sends. Rep: the initial SETTINGS frame names INITIAL_WINDOW_SIZE twice, {First, Init};
+// the last value is the one in force (RFC 7540 6.5.3), so the receiver acts on Init.
 type Win struct {
-	Init int    `json:"init"`
-	Mode string `json:"mode"`
-	Step int    `json:"step,omitempty"`
+	Init  int    `json:"init"`
+	Mode  string `json:"mode"`
+	Step  int    `json:"step,omitempty"`
+	Rep   bool   `json:"rep,omitempty"`
+	First int    `json:"first,omitempty"`
 }
 
 // Case is one relay session.
@@ -322,6 +328,14 @@ func genWin(t *rapid.T, label string) Win {
 	if w.Mode == "step" {
 		w.Step = rapid.SampledFrom([]int{1, 7, 100, 1000, 16384}).Draw(t, label+"_step")
 	}
+	switch rapid.IntRange(0, 7).Draw(t, label+"_special") {
+	case 0:
+		// no credit is ever returned: the last of two announced values must be what the
+		// relay works with
+		w = Win{Init: 65535, Mode: "none", Rep: true, First: rapid.SampledFrom([]int{0, 1, 100, 16384, 49152}).Draw(t, label+"_first")}
+	case 1:
+		w.Rep, w.First = true, rapid.SampledFrom([]int{0, 100, 65535, 1 << 20}).Draw(t, label+"_first")
+	}
 	return w
 }
 
@@ -472,11 +486,15 @@ func tame(frames []Frame, tableAnnounced bool) []Frame {
 			}
 			resized = true
 		case "H", "PP":
-			resized = false
 			if f.Bare && grows {
 				// the bare block resets the peer's table to 4096, which would evict
 				// entries a larger encoder table still refers to
 				f.Bare, f.Fields = false, []h2kit.Field{{N: "x-trail", V: "0"}}
+			}
+			if !f.Bare {
+				// (a bare block is sent as raw octets: a resize the encoder still has to
+				// signal stays pending until the next block it encodes itself)
+				resized = false
 			}
 		case "S":
 			var keep []h2kit.Setting
